@@ -277,7 +277,16 @@ func (vc *VC) structInfo(t types.Type) *structInfo {
 }
 
 func typeName(t types.Type, q types.Qualifier) string {
-	return sanitize(types.TypeString(types.Unalias(t), q))
+	t = types.Unalias(t)
+	if b, ok := t.(*types.Basic); ok {
+		switch b.Kind() {
+		case types.Uint8:
+			return "uint8"
+		case types.Int32:
+			return "int32"
+		}
+	}
+	return sanitize(types.TypeString(t, q))
 }
 
 // ---- heaps --------------------------------------------------------------------------------------
